@@ -79,10 +79,18 @@ def sites(path, text):
 
 
 def sh(cmd, cwd=None, env=None, timeout=3600):
+    # own process group, so that a timeout also removes grandchildren (test binaries of a check)
+    import signal
+    p = subprocess.Popen(cmd, cwd=cwd, env=env or ENV, stdout=subprocess.PIPE, stderr=subprocess.STDOUT, text=True, errors="replace", start_new_session=True)
     try:
-        r = subprocess.run(cmd, cwd=cwd, env=env or ENV, stdout=subprocess.PIPE, stderr=subprocess.STDOUT, text=True, errors="replace", timeout=timeout)
-        return r.returncode, r.stdout
+        out, _ = p.communicate(timeout=timeout)
+        return p.returncode, out
     except subprocess.TimeoutExpired:
+        try:
+            os.killpg(p.pid, signal.SIGKILL)
+        except OSError:
+            pass
+        p.wait()
         return -9, "timeout"
 
 
@@ -103,7 +111,7 @@ def run_mutant(job):
         suite = "suite-kills" if rc != 0 else "suite-passes"
         caught_by = None
         for prop in FILE_PROPS[f]:
-            rc, out = sh(["/verif/check", prop, "quick"], cwd="/verif", env=dict(ENV, VERIF_REPO=repo), timeout=900)
+            rc, out = sh(["/verif/check", prop, "quick"], cwd="/verif", env=dict(ENV, VERIF_REPO=repo), timeout=1500)
             if rc == 1 and "VIOLATION property=%s" % prop in out:
                 caught_by = prop
                 break
